@@ -176,6 +176,10 @@ func GenRequests(g *tape.Stream, fg *tape.Stream, s *Setup, p *Profile) [][]*Req
 					pr = append(pr, Act{Op: OpBefore, A: -1}, Act{Op: OpWrite, A: 5})
 					q.Progs[pos] = append(pr, q.Progs[pos][at:]...)
 				}
+				if fg.Chance(p.RHPanicPm) {
+					pos := fg.Intn(maxChain)
+					q.Progs[pos] = append([]Act{{Op: OpMapRH, A: 1}}, q.Progs[pos]...)
+				}
 				if fg.Chance(p.WFaultPm) {
 					q.WPlan = append(q.WPlan, WFault{At: fg.Intn(3), Kind: 1 + fg.Intn(2), Keep: fg.Intn(6)})
 				}
